@@ -94,13 +94,17 @@ func checkC02(r *Result) {
 		}
 	}
 	seen := map[string]bool{}
+	usedKeys := map[string]bool{}
 	for _, e := range errs {
 		k := FuncName(e.hook) + " <- " + e.o.Key()
 		if seen[k] {
 			continue
 		}
 		seen[k] = true
-		t, ok := c02Table[e.o.Key()]
+		t, ekey, ok := triageLookup(c02Table, e.o.Key(), usedKeys)
+		if ok && ekey != e.o.Key() {
+			k = FuncName(e.hook) + " <- " + ekey
+		}
 		if !ok {
 			if cl, why := autoClassErr(e.o); cl != "" {
 				t, ok = triage{cl, why}, true
